@@ -75,7 +75,8 @@ PROPS = {
     "C07": {
         "rule": "metamorphic: Match(P+X+S) equals Match(X) shifted by |P| tokens and lines(P) lines, for generated X (exact, noisy, truncated, multi-license) and OOV blocks P, S; premise verified at token level; non-trivial = Match(X) non-empty and |P| > 0",
         "assumptions": ["tied matches are compared in canonical order (their relative order is C04's subject)"],
-        "parts": [part("v2in", "TestVerif_C07", "embedding", 2400, 30000, shards=(12, 16))],
+        "parts": [part("v2in", "TestVerif_C07", "embedding", 2400, 30000, shards=(12, 16)),
+                  part("v2in", "TestVerif_C07_Offsets", "non-ascii-offset-sweep", 0, 0, shards=(4, 16), enum=True)],
     },
     "C08": {
         "rule": "differential: MatchFrom over generated read schedules vs Match on the same bytes vs Match on space-padded bytes (bit-identical Results), fault injection at drawn and at every offset (error returned, zero Results), exhaustive pad / fault / chunk sweeps on multi-byte-dense inputs",
